@@ -10,18 +10,34 @@ let digest (xs : int list) =
   let h = List.fold_left (fun h x -> (h * 31 + x + 1) mod 1_000_000_007) 7 xs in
   Printf.sprintf "%d:%d" (List.length xs) h
 
-(* canonical text of the representation; same format as [shape] in harness/src/bin/c17.rs *)
-let rec show_node = function
-  | Leaf d -> "L[" ^ String.concat "," (List.map (fun x -> string_of_int (int_of_nat x)) d) ^ "]"
-  | Interior ch -> "I[" ^ String.concat "," (List.map show_node ch) ^ "]"
+(* text of the representation: exactly what the derived [Debug] of the Rust [Vector]/[Slice] prints
+   (see [shape] in harness/src/bin/c17.rs) *)
+let rec add_node buf = function
+  | Leaf d ->
+      Buffer.add_string buf "Leaf { data: Chunk[";
+      List.iteri (fun i x -> if i > 0 then Buffer.add_string buf ", "; Buffer.add_string buf (string_of_int (int_of_nat x))) d;
+      Buffer.add_string buf "] }"
+  | Interior ch ->
+      Buffer.add_string buf "Interior { children: Chunk[";
+      List.iteri (fun i c -> if i > 0 then Buffer.add_string buf ", "; add_node buf c) ch;
+      Buffer.add_string buf "] }"
 
-let show_vec v =
-  Printf.sprintf "Vector{root:%s,length:%d,height:%d}"
-    (match v.root with None -> "None" | Some r -> "Some(" ^ show_node r ^ ")")
-    (int_of_nat v.vlen) (int_of_nat v.height)
+let add_vec buf v =
+  Buffer.add_string buf "Vector { root: ";
+  (match v.root with
+   | None -> Buffer.add_string buf "None"
+   | Some r -> Buffer.add_string buf "Some("; add_node buf r; Buffer.add_string buf ")");
+  Buffer.add_string buf (Printf.sprintf ", length: %d, height: %d }" (int_of_nat v.vlen) (int_of_nat v.height))
+
+let show_vec v = let b = Buffer.create 256 in add_vec b v; Buffer.contents b
 
 let show_slice s =
-  Printf.sprintf "Slice{vec:%s,start:%d,end:%d}" (show_vec s.svec) (int_of_nat s.sstart) (int_of_nat s.send)
+  let b = Buffer.create 256 in
+  Buffer.add_string b "Slice { vec: "; add_vec b s.svec;
+  Buffer.add_string b (Printf.sprintf ", start: %d, end: %d }" (int_of_nat s.sstart) (int_of_nat s.send));
+  Buffer.contents b
+
+let nosp s = String.concat "" (String.split_on_char ' ' s)
 
 let sdigest (s : string) =
   let h = ref 5 in
@@ -40,6 +56,7 @@ let parse_op (s : string) : op =
   | "vn" -> VNew | "vf" -> VFrom (parse_list (a 1)) | "vc" -> VClone (n 0) | "vd" -> VDrop (n 0)
   | "vp" -> VPush (n 0, n 1) | "vo" -> VPop (n 0) | "vs" -> VSet (n 0, n 1, n 2) | "vg" -> VGet (n 0, n 1)
   | "vt" -> VTrunc (n 0, n 1) | "ve" -> VExtend (n 0, parse_list (a 1)) | "vi" -> VIterFrom (n 0, n 1)
+  | "vm" -> VMapFrom (n 0, n 1, n 2) | "va" -> VMapFrom (n 0, O, n 1) | "sm" -> SMap (n 0, n 1)
   | "sn" -> SNew | "sf" -> SFrom (parse_list (a 1)) | "sc" -> SClone (n 0) | "sd" -> SDrop (n 0)
   | "sp" -> SPush (n 0, n 1) | "so" -> SPop (n 0) | "ss" -> SSet (n 0, n 1, n 2) | "sg" -> SGet (n 0, n 1)
   | "sl" -> SSlice (n 0, n 1, n 2) | "se" -> SExtend (n 0, parse_list (a 1)) | "sx" -> SExtendFrom (n 0, n 1)
@@ -95,8 +112,8 @@ let () =
           Buffer.add_char buf ' ') tr;
         Buffer.add_string buf "END ";
         let show l = String.concat "." (List.map string_of_int l) in
-        List.iteri (fun i h -> match h with Some v -> Buffer.add_string buf (Printf.sprintf "v%d=[%s]~%s|" i (show (ints (to_list v))) (show_vec v)) | None -> ()) !last.ivs;
-        List.iteri (fun i h -> match h with Some s -> Buffer.add_string buf (Printf.sprintf "s%d=[%s]~%s|" i (show (sl s)) (show_slice s)) | None -> ()) !last.iss
+        List.iteri (fun i h -> match h with Some v -> Buffer.add_string buf (Printf.sprintf "v%d=[%s]~%s|" i (show (ints (to_list v))) (nosp (show_vec v))) | None -> ()) !last.ivs;
+        List.iteri (fun i h -> match h with Some s -> Buffer.add_string buf (Printf.sprintf "s%d=[%s]~%s|" i (show (sl s)) (nosp (show_slice s))) | None -> ()) !last.iss
       end;
       print_string (Buffer.contents buf); print_newline ()
     done
